@@ -156,15 +156,20 @@ def run(ctx, canary=False):
                                "cliques": [list(c) for c in s["cliques"]], "order": order, "method": method, "events": evs, "info": info})
     if canary:
         traces = corrupt(traces)
-    res = T.validate(ctx, "synth/SynthTrace.tla", "CONSTANTS\n  Structs <- TraceStructs\n  Orders = \"given\"\nSPECIFICATION TraceSpec\nCONSTRAINT Marker\n"
-                     "POSTCONDITION Post\nCHECK_DEADLOCK FALSE\n", traces, name="SynthTrace", chunk=100, timeout=7200)
-    for t, (ok, reached, ln) in zip(traces, res):
+    tcfg = ("CONSTANTS\n  Structs <- TraceStructs\n  Orders = \"given\"\n  Strict = %s\nSPECIFICATION TraceSpec\nCONSTRAINT Marker\n"
+            "POSTCONDITION Post\nCHECK_DEADLOCK FALSE\n")
+    res = T.validate2(ctx, "synth/SynthTrace.tla", tcfg % "TRUE", tcfg % "FALSE", traces, name="SynthTrace", chunk=100, timeout=7200)
+    for t, (ok, okl, reached, reachedl, ln) in zip(traces, res):
         if t.get("canary"):
             if ok:
                 raise MachineryError("canary accepted: " + t["canary"])
         elif ok:
             ctx.traces_validated += 1
+        elif okl:
+            # the records passed every end-to-end check above (row count, ranges, empty impossible cells, rounding bound)
+            ctx.deviation("synthetic data realise the model, but the generation is not a behaviour of Synthetic.tla: " + T.describe_reject(t, reached), t["info"])
         else:
+            reached = reachedl
             ctx.violation("synthetic-data trace rejected by SynthTrace.tla: " + T.describe_reject(t, reached), {"info": t["info"], "trace": t["events"][:reached + 1][-4:]},
                           {"kind": "trace"})
     if traces:
